@@ -149,9 +149,13 @@ def shard(desc):
         samples = samples_for(edges if cw is None else list(cw) + [cw[0] + (cw[1] - cw[0]) * k / 7.0 for k in range(8)])
         if cw is not None:
             L = int(typ.lstrip('CH'))
+            step = (cw[1] - cw[0]) / float(L)
             for k in range(L + 1):
                 x = cw[0] + (cw[1] - cw[0]) / L * k
                 samples += [x, math.nextafter(x, math.inf), math.nextafter(x, -math.inf)]
+                # start + step*k in the constructor's own operation order: lands exactly on the stored edge k
+                e = cw[0] + step * float(k)
+                samples += [e, math.nextafter(e, math.inf), math.nextafter(e, -math.inf)]
         c, seq = make_case('%s-%d' % (desc['name'], cid), typ, edges, samples, rng, cw)
         cid += 1
         cases.append(c)
